@@ -10,8 +10,12 @@
 (* Each event is one step of Tasks.tla with the logged slot and index:      *)
 (* BeginAt, Deliver (the slot the model routes the index to must be the     *)
 (* slot the code chose), Complete, NoSlotFor (after the code has tried all  *)
-(* slots twice) - and the model's invariants OwnResponses, DistinctInFlight *)
-(* and NoSpuriousFailure are evaluated on every state of the replayed run.  *)
+(* slots twice), CompleteHold / DropHeld (a response kept claimed while the  *)
+(* task goes on: inferred when the task claims again before it releases),   *)
+(* Abandon (a slot released before its response is there), a response the   *)
+(* receive side accepts into no slot - and the model's invariants           *)
+(* OwnResponses, DistinctInFlight, NoSpuriousFailure and NoResponseLost are *)
+(* evaluated on every state of the replayed run.                            *)
 (***************************************************************************)
 EXTENDS Tasks, Json, IOUtils
 
@@ -37,32 +41,53 @@ F == E.slot + 1
 
 Stutter == UNCHANGED tkvars
 
+NextIsDeliver == k < Len(Ev(Rec[ri])) /\ Ev(Rec[ri])[k + 1].ev = "deliver"
+
 TNext ==
     /\ k <= Len(Ev(Rec[ri]))
-    /\ \/ /\ E.ev = "claim" /\ ~slot[F].busy /\ pc[T] = "idle"
-          /\ pend' = [pend EXCEPT ![T] = F] /\ fails' = [fails EXCEPT ![T] = 0] /\ Stutter /\ UNCHANGED rxIdx
-       \/ /\ E.ev = "index" /\ pend[T] = F
-          /\ BeginAt(T, F, E.idx)
-          /\ pend' = [pend EXCEPT ![T] = -1] /\ UNCHANGED <<rxIdx, fails>>
-       \/ /\ E.ev = "index" /\ pend[T] # F /\ slot[F].busy /\ slot[F].owner = T       \* further datagrams of the same frame
-          /\ Stutter /\ UNCHANGED <<pend, rxIdx, fails>>
-       \/ /\ E.ev = "send" /\ slot[F].busy
-          /\ Stutter /\ UNCHANGED <<pend, rxIdx, fails>>
-       \/ /\ E.ev = "rx"
-          /\ rxIdx' = E.idx /\ Stutter /\ UNCHANGED <<pend, fails>>
-       \/ /\ E.ev = "deliver"
-          /\ \E fr \in wire : fr.idx = rxIdx /\ Deliver(fr)
-          /\ slot'[F].resp # <<>> /\ slot[F].resp = <<>>        \* the model routed it to the slot the code chose
-          /\ rxIdx' = -1 /\ UNCHANGED <<pend, fails>>
-       \/ /\ E.ev = "release" /\ E.task >= 0 /\ slot[F].busy /\ slot[F].owner = T /\ slot[F].resp # <<>>
-          /\ Complete(T) /\ ~slot'[F].busy
-          /\ UNCHANGED <<pend, rxIdx, fails>>
-       \/ /\ E.ev = "claimfail" /\ slot[F].busy
-          /\ IF fails[T] + 1 >= 2 * Slots
-             THEN NoSlotFor(T) /\ fails' = [fails EXCEPT ![T] = 0]
-             ELSE Stutter /\ fails' = [fails EXCEPT ![T] = @ + 1]
-          /\ UNCHANGED <<pend, rxIdx>>
-    /\ k' = k + 1 /\ UNCHANGED ri
+    /\ \/ \* (silent) a task that goes on to its next operation while its slot still holds the response it was given has
+          \* taken that response and keeps it claimed
+          /\ E.ev \in {"claim", "claimfail"} /\ pc[T] = "wait" /\ CompleteHold(T)
+          /\ UNCHANGED <<k, pend, rxIdx, fails>>
+       \/ /\ k' = k + 1
+          /\ \/ /\ E.ev = "claim" /\ ~slot[F].busy /\ pc[T] = "idle"
+                /\ pend' = [pend EXCEPT ![T] = F] /\ fails' = [fails EXCEPT ![T] = 0] /\ Stutter /\ UNCHANGED rxIdx
+             \/ /\ E.ev = "index" /\ pend[T] = F
+                /\ BeginAt(T, F, E.idx)
+                /\ pend' = [pend EXCEPT ![T] = -1] /\ UNCHANGED <<rxIdx, fails>>
+             \/ /\ E.ev = "index" /\ pend[T] # F /\ slot[F].busy /\ slot[F].owner = T       \* further datagrams of the same frame
+                /\ Stutter /\ UNCHANGED <<pend, rxIdx, fails>>
+             \/ /\ E.ev = "send" /\ slot[F].busy
+                /\ Stutter /\ UNCHANGED <<pend, rxIdx, fails>>
+             \/ /\ E.ev = "rx" /\ NextIsDeliver
+                /\ rxIdx' = E.idx /\ Stutter /\ UNCHANGED <<pend, fails>>
+             \/ \* a response the receive side did not accept into any slot: it is gone; if the model knows a slot that
+                \* awaits it, it was lost
+                /\ E.ev = "rx" /\ ~NextIsDeliver
+                /\ \E fr \in wire :
+                      /\ fr.idx = E.idx
+                      /\ wire' = wire \ {fr}
+                      /\ lost' = IF Route(E.idx) # 0 THEN lost \cup {fr.tag} ELSE lost
+                /\ UNCHANGED <<slot, nextIdx, pc, done, full, pend, rxIdx, fails>>
+             \/ /\ E.ev = "deliver"
+                /\ \E fr \in wire : fr.idx = rxIdx /\ Deliver(fr)
+                /\ slot'[F].resp # <<>> /\ slot[F].resp = <<>>        \* the model routed it to the slot the code chose
+                /\ rxIdx' = -1 /\ UNCHANGED <<pend, fails>>
+             \/ /\ E.ev = "release" /\ E.task >= 0 /\ slot[F].busy /\ slot[F].owner = T /\ ~slot[F].held /\ slot[F].resp # <<>>
+                /\ Complete(T) /\ ~slot'[F].busy
+                /\ UNCHANGED <<pend, rxIdx, fails>>
+             \/ /\ E.ev = "release" /\ E.task >= 0 /\ DropHeld(T, F)
+                /\ UNCHANGED <<pend, rxIdx, fails>>
+             \/ \* the operation is given up before its response is there
+                /\ E.ev = "release" /\ E.task >= 0 /\ slot[F].busy /\ slot[F].owner = T /\ ~slot[F].held /\ slot[F].resp = <<>>
+                /\ Abandon(T) /\ ~slot'[F].busy
+                /\ UNCHANGED <<pend, rxIdx, fails>>
+             \/ /\ E.ev = "claimfail" /\ slot[F].busy /\ pc[T] = "idle"
+                /\ IF fails[T] + 1 >= 2 * Slots
+                   THEN NoSlotFor(T) /\ fails' = [fails EXCEPT ![T] = 0]
+                   ELSE Stutter /\ fails' = [fails EXCEPT ![T] = @ + 1]
+                /\ UNCHANGED <<pend, rxIdx>>
+    /\ UNCHANGED ri
 TraceSpec == TInit /\ [][TNext]_tevars
 
 Track == TLCSet(6, [TLCGet(6) EXCEPT ![ri] = IF k > @ THEN k ELSE @])
@@ -72,6 +97,7 @@ Judge ==
     LET bad == (IF ~OwnResponses THEN {<<"ForeignResponse", done>>} ELSE {})
                \cup (IF ~DistinctInFlight THEN {<<"SameIndexInFlightTwice", [f \in Slot |-> slot[f].idx]>>} ELSE {})
                \cup (IF ~NoSpuriousFailure THEN {<<"SlotFailureWithFreeSlot", full>>} ELSE {})
+               \cup (IF ~NoResponseLost THEN {<<"ResponseLost", lost>>} ELSE {})
     IN /\ (k = 1 => TLCSet(5, TLCGet(5) + 1))
        /\ (bad # {} => /\ PrintT(ToJson([kind |-> "VIOL", case |-> Rec[ri].case.id, errs |-> ToString(bad)]))
                        /\ TLCSet(3, TLCGet(3) + 1))
